@@ -2,6 +2,7 @@
 import concurrent.futures
 import os
 import re
+import resource
 import shutil
 import signal
 import subprocess
@@ -36,7 +37,7 @@ def janitor():
 
 
 class Result:
-    __slots__ = ("rc", "sig", "timed_out", "out", "err", "log", "wall", "cmd", "env_extra")
+    __slots__ = ("rc", "sig", "timed_out", "out", "err", "log", "log_truncated", "wall", "cmd", "env_extra")
 
     def __init__(self):
         self.rc = None
@@ -45,6 +46,7 @@ class Result:
         self.out = ""
         self.err = ""
         self.log = []
+        self.log_truncated = False
         self.wall = 0.0
         self.cmd = None
         self.env_extra = {}
@@ -53,8 +55,18 @@ class Result:
     def crashed(self):
         return self.sig is not None and not self.timed_out
 
-    def log_lines(self, prefix):
-        return [l for l in self.log if l.startswith(prefix)]
+    def log_lines(self, prefix, limit=None):
+        """Lines of the hook log with this prefix.  Failure reports are capped (a broken tree can emit millions of
+        them per process and the 51st says nothing the first 50 did not)."""
+        if limit is None and prefix.endswith("-FAIL"):
+            limit = 50
+        out = []
+        for l in self.log:
+            if l.startswith(prefix):
+                out.append(l)
+                if limit and len(out) >= limit:
+                    break
+        return out
 
     def log_kv(self, prefix):
         """Parse 'PREFIX k=v k=v' lines into dicts."""
@@ -150,6 +162,11 @@ def run(build, args, env_extra=None, timeout=60, stdin_data=None, cwd=None, heap
                              else subprocess.DEVNULL, stdout=outf, stderr=errf, start_new_session=True,
                              preexec_fn=_limits(stack_mb, nofile) if (stack_mb or nofile) else None)
         try:
+            # a broken tree can write without end: no file of the child (stdout, stderr, hook log) grows beyond 1 GB
+            resource.prlimit(p.pid, resource.RLIMIT_FSIZE, (1 << 30, 1 << 30))
+        except (OSError, ValueError):
+            pass
+        try:
             p.communicate(stdin_data, timeout=timeout)
         except subprocess.TimeoutExpired:
             r.timed_out = True
@@ -178,7 +195,8 @@ def run(build, args, env_extra=None, timeout=60, stdin_data=None, cwd=None, heap
             setattr(r, name, data.decode("utf-8", "replace"))
         if os.path.exists(logf):
             with open(logf, errors="replace") as fh:
-                r.log = fh.read().split("\n")
+                r.log = fh.read(160 << 20).split("\n")
+            r.log_truncated = os.path.getsize(logf) > (160 << 20) or "LOG-TRUNCATED" in r.log[-3:]
         shutil.rmtree(d, ignore_errors=True)
     return r
 
